@@ -44,6 +44,10 @@ class FaultSim(mosaik_api_v3.Simulator):
                 raise exc(f"injected fault in {name} of {self.sid}")
             if self.fault["kind"] == "exit":
                 os._exit(3)
+            if self.fault["kind"] == "exit_idle":
+                # the process dies shortly AFTER it has answered this request: while mosaik has no request outstanding to it
+                import threading
+                threading.Timer(0.05, os._exit, (3,)).start()
 
     def create(self, num, model, **kw):
         return [{"eid": f"E{i}", "type": model} for i in range(num)]
